@@ -1621,7 +1621,9 @@ func (d *decoderMsgpackBytes) kInterfaceNaked(f *decFnInfo) (rvn reflect.Value) 
 				if bfn.ext == SelfExt {
 
 					bytes = d.sideDecodeInput(bytes, d.attachState(!d.bytes))
-					sideDecode(d.hh, &d.h.sideDecPool, func(sd decoderI) { oneOffDecode(sd, rv2i(rvn), bytes, bfn.rt, true) })
+					d.depthIncr()
+					sideDecode(d.hh, &d.h.sideDecPool, func(sd decoderI) { oneOffDecode(sd, rv2i(rvn), bytes, bfn.rt, true, d.depth) })
+					d.depthDecr()
 				} else {
 					bfn.ext.ReadExt(rv2i(rvn), bytes)
 				}
@@ -3962,7 +3964,9 @@ func (d *msgpackDecDriverBytes) DecodeExt(rv interface{}, basetype reflect.Type,
 	}
 	if ext == SelfExt {
 		xbs = d.d.sideDecodeInput(xbs, state)
-		sideDecode(d.h, &d.h.sideDecPool, func(sd decoderI) { oneOffDecode(sd, rv, xbs, basetype, true) })
+		d.d.depthIncr()
+		sideDecode(d.h, &d.h.sideDecPool, func(sd decoderI) { oneOffDecode(sd, rv, xbs, basetype, true, d.d.depth) })
+		d.d.depthDecr()
 	} else {
 		ext.ReadExt(rv, xbs)
 	}
@@ -5668,7 +5672,9 @@ func (d *decoderMsgpackIO) kInterfaceNaked(f *decFnInfo) (rvn reflect.Value) {
 				if bfn.ext == SelfExt {
 
 					bytes = d.sideDecodeInput(bytes, d.attachState(!d.bytes))
-					sideDecode(d.hh, &d.h.sideDecPool, func(sd decoderI) { oneOffDecode(sd, rv2i(rvn), bytes, bfn.rt, true) })
+					d.depthIncr()
+					sideDecode(d.hh, &d.h.sideDecPool, func(sd decoderI) { oneOffDecode(sd, rv2i(rvn), bytes, bfn.rt, true, d.depth) })
+					d.depthDecr()
 				} else {
 					bfn.ext.ReadExt(rv2i(rvn), bytes)
 				}
@@ -8009,7 +8015,9 @@ func (d *msgpackDecDriverIO) DecodeExt(rv interface{}, basetype reflect.Type, xt
 	}
 	if ext == SelfExt {
 		xbs = d.d.sideDecodeInput(xbs, state)
-		sideDecode(d.h, &d.h.sideDecPool, func(sd decoderI) { oneOffDecode(sd, rv, xbs, basetype, true) })
+		d.d.depthIncr()
+		sideDecode(d.h, &d.h.sideDecPool, func(sd decoderI) { oneOffDecode(sd, rv, xbs, basetype, true, d.d.depth) })
+		d.d.depthDecr()
 	} else {
 		ext.ReadExt(rv, xbs)
 	}
